@@ -21,6 +21,7 @@ Ltac unf :=
   cbv [funnel layer_prefix perform through pep479 layer_handler wrapper_handler read_handler
        write_handler close_handler close_peer_alert checker_step getmsg_peer_alert
        record_handler getmsg_handler sendError record_alert getmsg_alert mapped_alert
+       wrapper_alert mapped_alert_ly unsendable_wrapper_alert decrypt_error
        under_record under_getmsg is_pretry layer_eqb wf_event escapes_handlers keeps_resumable
        unexpected_message record_overflow illegal_parameter decryption_failed bad_record_mac
        bad_certificate decode_error close_notify level_fatal level_warning] in *.
@@ -125,18 +126,22 @@ Proof. destruct e; vm_compute; congruence. Qed.
      - a TLSAlert instance raised by a callee in a handshake without a preceding _shutdown
        (the wrapper re-raises TLSAlert without closing; all five `raise TLS*Alert` sites of
        tlslite shut down first, they are the actions ASendError / APeerAlert /
-       AShutRaiseRemote).
+       AShutRaiseRemote / AShutRaiseSock).
+   unsendable_wrapper_alert is the fourth: the alert of one of the wrapper's own clauses
+   (TLSIllegalParameterException / TLSDecodeError / TLSDecryptionFailed reaching it
+   unconverted) cannot be sent; socket.error then leaves the wrapper with nothing shut down.
    keeps_resumable: writeAsync with ignoreAbruptClose, and an orderly close_notify. *)
 Theorem funnel_postcondition_all :
   forall ly dp a sf st r st',
     wf_event ly dp a = true ->
+    unsendable_wrapper_alert ly dp a sf = false ->
     funnel ly dp a sf st = (Raised r, st') ->
     closed st' = true
     /\ (close_socket st = true -> sock_closed st' = true)
     /\ (has_session st = true -> keeps_resumable ly a st = false -> resumable st' = false)
     /\ has_session st' = has_session st.
 Proof.
-  intros ly dp a sf [cl sc hs rs w cs ia fl] r st' Hwf H.
+  intros ly dp a sf [cl sc hs rs w cs ia fl] r st' Hwf Hu H.
   destruct ly, dp, a; unf; red1; try discriminate;
     fin; repeat (split1; red1; fin);
     repeat split; intros; red1; fin; try reflexivity;
@@ -180,17 +185,23 @@ Proof.
     eexists; split; reflexivity.
 Qed.
 
-(* ---- 3. only documented classes come out, for the classes the callees are specified to raise *)
+(* ---- 3. only documented classes come out, for the classes the callees are specified to raise:
+   record layer / parser classes under _getMsg in every layer, and (since 6da5459) the three
+   protocol-error classes raised anywhere under the handshake wrapper *)
 Theorem documented_exceptions_only_all :
   forall ly dp e d0 sf st r st',
-    specified dp e = true -> fault st = None ->
+    specified_ly ly dp e = true -> fault st = None ->
     funnel ly dp (ARaise e d0) sf st = (Raised r, st') ->
     documented (rclass r) = true.
 Proof.
   intros ly dp e d0 sf [cl sc hs rs w cs ia fl] r st' Hs Hf H. cbn in Hf. subst fl.
-  destruct dp; try discriminate; destruct e; try discriminate;
-    destruct ly; unf; red1;
-    fin; repeat (split1; red1; fin); vm_compute; reflexivity.
+  unfold specified_ly in Hs. apply orb_true_iff in Hs. destruct Hs as [Hs|Hs].
+  - destruct dp; try discriminate; destruct e; try discriminate;
+      destruct ly; unf; red1;
+      fin; repeat (split1; red1; fin); vm_compute; reflexivity.
+  - destruct ly; try discriminate; destruct dp; try discriminate;
+      destruct e; try discriminate; unf; red1;
+      fin; repeat (split1; red1; fin); vm_compute; reflexivity.
 Qed.
 
 (* ---- 4. the limits of the funnel ------------------------------------------------------ *)
@@ -213,37 +224,120 @@ Proof.
     fin; repeat (split1; red1; fin); try reflexivity.
 Qed.
 
-(* a TLS exception that is not a TLSAlert, raised in the handshake body outside _getMsg,
-   reaches the caller unchanged: socket closed, but NO alert was sent *)
-Theorem wrapper_no_alert_for_direct_raise :
+(* the wrapper's own conversion (tlsconnection.py 5195-5208) concerns exactly three classes *)
+Lemma wrapper_alert_exact :
+  forall e, wrapper_alert e = match e with
+                              | E_TLSIllegalParameterException => Some illegal_parameter
+                              | E_TLSDecodeError => Some decode_error
+                              | E_TLSDecryptionFailed => Some decrypt_error
+                              | _ => None
+                              end.
+Proof. destruct e; reflexivity. Qed.
+
+Lemma wrapper_alert_class_facts :
+  forall e d, wrapper_alert e = Some d ->
+    subclass e E_GeneratorExit = false /\ subclass e E_TLSAlert = false
+    /\ subclass e E_StopIteration = false /\ subclass e E_TLSAuthenticationError = false
+    /\ subclass e E_TLSProtocolException = true /\ documented e = false.
+Proof. destruct e; vm_compute; intros; try discriminate; repeat split. Qed.
+
+(* TLSIllegalParameterException / TLSDecodeError / TLSDecryptionFailed that reach the handshake
+   wrapper unconverted (raised directly in the handshake body, in the Checker, in the record
+   read of _sendMsgThroughSocket, or -- TLSDecodeError, TLSDecryptionFailed -- in a parser):
+   fatal alert, then closure, TLSLocalAlert to the caller; fault-testing mode does not apply *)
+Theorem handshake_direct_protocol_error_alerts :
+  forall dp e d0 st o st' d,
+    is_pretry dp = false -> mapped_alert dp e = None -> wrapper_alert e = Some d ->
+    funnel LHandshake dp (ARaise e d0) false st = (o, st') ->
+    o = Raised (mkr E_TLSLocalAlert (Some d))
+    /\ st' = shutdown false (emit (WAlert level_fatal d) st)
+    /\ wire st' = wire st ++ [WAlert level_fatal d; WShutdown false]
+    /\ closed st' = true
+    /\ (close_socket st = true -> sock_closed st' = true)
+    /\ (has_session st = true -> resumable st' = false)
+    /\ documented E_TLSLocalAlert = true.
+Proof.
+  intros dp e d0 [cl sc hs rs w cs ia fl] o st' d Hp Hm Hw H.
+  destruct e; try discriminate; destruct dp; try discriminate;
+    unf; red1; fin; repeat (split1; red1; fin);
+    repeat split; intros; red1; fin; try reflexivity;
+    try (rewrite <- app_assoc; reflexivity);
+    subst; try rewrite orb_true_r; reflexivity.
+Qed.
+
+Corollary direct_illegal_parameter_now_alert :
+  forall st,
+    funnel LHandshake DDirect (ARaise E_TLSIllegalParameterException None) false st
+      = (Raised (mkr E_TLSLocalAlert (Some illegal_parameter)),
+         shutdown false (emit (WAlert level_fatal illegal_parameter) st))
+    /\ protocol_violation E_TLSIllegalParameterException = true
+    /\ documented E_TLSIllegalParameterException = false
+    /\ documented E_TLSLocalAlert = true.
+Proof. intros [cl sc hs rs w cs ia fl]. repeat split. Qed.
+
+Corollary direct_decryption_failed_now_alert :
+  forall st,
+    funnel LHandshake DDirect (ARaise E_TLSDecryptionFailed None) false st
+      = (Raised (mkr E_TLSLocalAlert (Some decrypt_error)),
+         shutdown false (emit (WAlert level_fatal decrypt_error) st)).
+Proof. intros [cl sc hs rs w cs ia fl]. reflexivity. Qed.
+
+Corollary parser_tls_decode_error_now_alert :
+  forall st,
+    funnel LHandshake DParser (ARaise E_TLSDecodeError None) false st
+      = (Raised (mkr E_TLSLocalAlert (Some decode_error)),
+         shutdown false (emit (WAlert level_fatal decode_error) st)).
+Proof. intros [cl sc hs rs w cs ia fl]. reflexivity. Qed.
+
+(* the residue: every other class that is not a TLSAlert, raised in the handshake body outside
+   _getMsg, still reaches the caller unchanged: socket closed, but NO alert was sent *)
+Theorem direct_raise_still_without_alert :
   forall e d sf st,
     subclass e E_TLSAlert = false ->
     subclass e E_GeneratorExit = false ->
     subclass e E_StopIteration = false ->
+    wrapper_alert e = None ->
     funnel LHandshake DDirect (ARaise e d) sf st = (Raised (mkr e d), shutdown false st).
 Proof.
-  intros e d sf st H1 H2 H3. unf. red1. rewrite H2, H1. cbn [rclass]. rewrite H3. reflexivity.
+  intros e d sf st H1 H2 H3 H4. unfold funnel, layer_prefix, perform, through, layer_handler,
+    wrapper_handler, pep479, under_record, under_getmsg, is_pretry, layer_eqb.
+  cbn [andb rclass]. rewrite H2, H1, H4. cbn [rclass]. rewrite H3. reflexivity.
 Qed.
 
-Corollary direct_illegal_parameter_no_alert :
-  forall sf st,
-    funnel LHandshake DDirect (ARaise E_TLSIllegalParameterException None) sf st
-      = (Raised (mkr E_TLSIllegalParameterException None), shutdown false st)
-    /\ protocol_violation E_TLSIllegalParameterException = true
-    /\ documented E_TLSIllegalParameterException = false.
+(* among the TLSProtocolException family the residue is exactly residue_protocol_classes *)
+Lemma residue_protocol_exceptions :
+  forall e, subclass e E_TLSProtocolException = true ->
+    existsb (exc_eqb e) residue_protocol_classes
+    = match wrapper_alert e with None => true | Some _ => false end.
+Proof. destruct e; vm_compute; congruence. Qed.
+
+Theorem residue_direct_no_alert :
+  forall e d sf st,
+    existsb (exc_eqb e) residue_protocol_classes = true ->
+    funnel LHandshake DDirect (ARaise e d) sf st = (Raised (mkr e d), shutdown false st)
+    /\ subclass e E_TLSProtocolException = true
+    /\ documented e = false.
 Proof.
-  intros sf st. split; [apply wrapper_no_alert_for_direct_raise; vm_compute; reflexivity|].
-  split; vm_compute; reflexivity.
+  intros e d sf st H.
+  destruct e; try discriminate;
+    (split; [apply direct_raise_still_without_alert; vm_compute; reflexivity
+            | split; vm_compute; reflexivity]).
 Qed.
 
-Corollary direct_decryption_failed_no_alert :
-  forall sf st,
-    funnel LHandshake DDirect (ARaise E_TLSDecryptionFailed None) sf st
-      = (Raised (mkr E_TLSDecryptionFailed None), shutdown false st)
-    /\ documented E_TLSDecryptionFailed = false.
+(* readAsync / writeAsync / closeAsync have no such conversion: the same three classes raised
+   directly in their bodies escape unchanged, closed but without any alert *)
+Theorem other_layers_direct_protocol_error_no_alert :
+  forall ly e d0 sf st d,
+    layer_eqb ly LHandshake = false ->
+    layer_eqb ly LClose && closed st = false ->
+    wrapper_alert e = Some d ->
+    funnel ly DDirect (ARaise e d0) sf st
+    = (Raised (mkr e d0), shutdown (layer_eqb ly LWrite && ignore_abrupt st) st)
+    /\ documented e = false.
 Proof.
-  intros sf st. split; [apply wrapper_no_alert_for_direct_raise; vm_compute; reflexivity|].
-  vm_compute; reflexivity.
+  intros ly e d0 sf [cl sc hs rs w cs ia fl] d Hl Hc Hw.
+  destruct e; try discriminate; (split; [|vm_compute; reflexivity]);
+    destruct ly; try discriminate; unf; red1; fin; repeat (split1; red1; fin); reflexivity.
 Qed.
 
 (* the same class one level deeper IS converted *)
@@ -289,6 +383,18 @@ Lemma checker_alert_leaves_connection_open :
 Proof.
   exists (mkcst false false true true [] true false None). eexists.
   split; [vm_compute; reflexivity|]. repeat split.
+Qed.
+
+(* the alert of the wrapper's own clauses cannot be sent: socket.error comes out of an except
+   clause, the bare `except:` of the same try does not run: nothing is shut down *)
+Lemma wrapper_alert_send_failure_leaves_open :
+  forall dp e d0 st d,
+    is_pretry dp = false -> mapped_alert dp e = None -> wrapper_alert e = Some d ->
+    unsendable_wrapper_alert LHandshake dp (ARaise e d0) true = true
+    /\ funnel LHandshake dp (ARaise e d0) true st = (Raised (mkr E_SockError None), st).
+Proof.
+  intros dp e d0 [cl sc hs rs w cs ia fl] d Hp Hm Hw.
+  destruct e; try discriminate; destruct dp; try discriminate; split; reflexivity.
 Qed.
 
 (* writeAsync with ignoreAbruptClose keeps the session resumable whatever went wrong *)
@@ -358,8 +464,8 @@ Lemma record_only_classes_not_converted_by_getmsg :
   forall st, fault st = None ->
     funnel LHandshake DParser (ARaise E_TLSBadRecordMAC None) false st
     = (Raised (mkr E_TLSBadRecordMAC None), shutdown false st)
-    /\ funnel LHandshake DParser (ARaise E_TLSDecodeError None) false st
-       = (Raised (mkr E_TLSDecodeError None), shutdown false st).
+    /\ funnel LHandshake DParser (ARaise E_TLSRecordOverflow None) false st
+       = (Raised (mkr E_TLSRecordOverflow None), shutdown false st).
 Proof. intros [cl sc hs rs w cs ia fl] Hf. split; unf; red1; reflexivity. Qed.
 
 (* ---- 6. the hypotheses are satisfiable: concrete runs -------------------------------------- *)
@@ -388,6 +494,34 @@ Proof. repeat split. Qed.
 
 Example ex_predict :
   predict 1 0 63 = (46, Some 20, true, false)      (* read, record, TLSBadRecordMAC *)
-  /\ predict 0 2 58 = (58, None, true, false)      (* handshake, direct, TLSIllegalParameterException *)
+  /\ predict 0 2 58 = (46, Some 47, true, false)   (* handshake, direct, TLSIllegalParameterException *)
+  /\ predict 0 2 66 = (66, None, true, false)      (* handshake, direct, TLSHandshakeFailure *)
+  /\ predict 1 2 58 = (58, None, true, false)      (* read, direct, TLSIllegalParameterException *)
   /\ predict 0 1 12 = (12, None, true, false).     (* handshake, parser, AttributeError *)
 Proof. repeat split. Qed.
+
+Example ex_handshake_direct_decryption_failed :
+  specified_ly LHandshake DDirect E_TLSDecryptionFailed = true
+  /\ is_pretry DDirect = false /\ mapped_alert DDirect E_TLSDecryptionFailed = None
+  /\ wrapper_alert E_TLSDecryptionFailed = Some decrypt_error
+  /\ funnel LHandshake DDirect (ARaise E_TLSDecryptionFailed None) false (init_state LHandshake)
+     = (Raised (mkr E_TLSLocalAlert (Some 51)),
+        mkcst true true false false [WAlert 2 51; WShutdown false] true false None).
+Proof. repeat split. Qed.
+
+(* since 8b57b65 writeAsync tests `closed` before its try: TLSClosedConnectionError comes out
+   without _shutdown, so a write after an orderly close no longer clears session.resumable *)
+Lemma write_closed_pretry :
+  forall sf st,
+    funnel LWrite DPreTry (ARaise E_TLSClosedConnectionError None) sf st
+    = (Raised (mkr E_TLSClosedConnectionError None), st)
+    /\ documented E_TLSClosedConnectionError = true.
+Proof. intros sf [cl sc hs rs w cs ia fl]. split; reflexivity. Qed.
+
+(* since 0ab9df1 a handshake record that cannot be sent, with a pending record that is not an
+   alert, ends the handshake with the socket error after _shutdown(False) *)
+Lemma failed_handshake_send_no_alert_pending :
+  forall sf st,
+    funnel LHandshake DRecOnly AShutRaiseSock sf st
+    = (Raised (mkr E_SockError None), shutdown false (shutdown false st)).
+Proof. intros sf [cl sc hs rs w cs ia fl]. reflexivity. Qed.
